@@ -1257,13 +1257,34 @@ pub fn adjusted_parse_rate(tree: &Tree, parse_time: Duration) -> f64 {
 }
 
 fn write_tests(file_path: &Path, corrected_entries: &[TestCorrection]) -> Result<()> {
+    // Keep the delimiter suffix the file uses (it is defined by its first `===` line), so
+    // that delimiter-looking lines inside test inputs stay unambiguous after the rewrite.
+    let suffix = fs::read_to_string(file_path)
+        .ok()
+        .and_then(|content| {
+            content.split_inclusive('\n').find_map(|line| {
+                match parse_delimiter_line(line, '=')? {
+                    (_, suffix) if !suffix.is_empty() => Some(suffix.to_string()),
+                    _ => None,
+                }
+            })
+        })
+        .unwrap_or_default();
     let mut buffer = fs::File::create(file_path)?;
-    write_tests_to_buffer(&mut buffer, corrected_entries)
+    write_tests_to_buffer_with_suffix(&mut buffer, corrected_entries, &suffix)
 }
 
 fn write_tests_to_buffer(
     buffer: &mut impl Write,
     corrected_entries: &[TestCorrection],
+) -> Result<()> {
+    write_tests_to_buffer_with_suffix(buffer, corrected_entries, "")
+}
+
+fn write_tests_to_buffer_with_suffix(
+    buffer: &mut impl Write,
+    corrected_entries: &[TestCorrection],
+    suffix: &str,
 ) -> Result<()> {
     for (
         i,
@@ -1282,7 +1303,7 @@ fn write_tests_to_buffer(
         }
         writeln!(
             buffer,
-            "{}\n{name}\n{}{}\n{input}\n{}\n\n{}",
+            "{}{suffix}\n{name}\n{}{}{suffix}\n{input}\n{}{suffix}\n\n{}",
             "=".repeat(*header_delim_len),
             if attributes_str.is_empty() {
                 attributes_str.clone()
